@@ -254,7 +254,7 @@ def judge_fold(case):
                             "two calls of the same Source over a list give %s then %s" % (short(a), short(b)))
     # the same Sequence object run a second time on an equal flow gives the same again
     # (streaming elements only: accumulators and counters carry state from run to run by design)
-    if all(r[0] in ("map", "var", "filter", "slice", "runif", "reverse", "end", "print", "callfc", "seq") for r in R.flat(els)) \
+    if all(r[0] in ("map", "var", "varattr", "filter", "slice", "runif", "reverse", "end", "print", "callfc", "seq") for r in R.flat(els)) \
             and all(x[0] in ("map", "var", "filter", "slice") for r in R.flat(els) if r[0] == "runif" for x in r[2]):
         same = Sequence(*build_bracketed(els, case["bracket"]))
         first_run = _norm(_drain(lambda: same.run(_as_flow(flowjs, case["flow_as"]))))
@@ -275,7 +275,7 @@ def _stateless(els):
     for r in R.flat(els):
         if r[0] == "map" and r[1] in ("ctx_mut",):
             return False
-        if r[0] == "var":
+        if r[0] in ("var", "varattr"):
             return False
     return True
 
